@@ -490,6 +490,8 @@ class SchedAdapter:
         for o in w.obs:
             if o[0] == 'handler-exception':
                 report(f'C03/farm-handler-raised/{ev[0]}/{o[1]}', f'event {ev}: Hand.dataReceived raised {o[1]}: {o[2]}')
+            if o[0] == 'dispatch-raised':
+                report(f'C03/dispatch-raises/{o[1]}', f'farm.dispatch raised {o[1]}: {o[2]}')
 
     # ---- C04
     def quiescent_truth(self):
@@ -635,7 +637,18 @@ class SchedAdapter:
                                            f'{want_next} released algorithms had no run id')
         mon['next_calls'] = 0
         w.next_calls = 0
-        # unplaced tasks stay queued: conservation is C03's clause (ii), here:
+        # unplaced tasks stay queued (the farm here has no cloud agency, so the
+        # cluster queue is the only place a task message may wait)
+        if ev[0] == 'tick':
+            nput = sum(len(v) for v in puts.values())
+            ntask = len([o for o in w.obs if o[0] == 'task'])
+            if len(s['cluster']) + nput != len(farm._cluster) + ntask:
+                report('C11/unplaced-task-not-queued',
+                       f'{len(s["cluster"])} queued + {nput} released != {len(farm._cluster)} queued + {ntask} sent '
+                       f'(cloud queue holds {len(farm._cloud)} without a cloud agency)')
+        for o in w.obs:
+            if o[0] == 'dispatch-raised':
+                report(f'C11/dispatch-raises/{o[1]}', f'farm.dispatch raised {o[1]}: {o[2]}')
         # nothing is written at all while inactive except abort responses
         if not w.fsm.active and ev[0] in ('tick', 'poll', 'reg'):
             bad = [o for o in w.obs if o[0] in ('task', 'wait', 'proceed')]
